@@ -448,27 +448,41 @@ func (r *c06Runner) replayEdge(si int, p *c06Point, in *c06Instr) ([]string, str
 		}
 		w.cpu.Interrupt = saved
 		if len(d) == 0 {
-			// the same Step again, and a device raises an NMI from inside the first memory callback: the Step
-			// has already decided to execute the instruction, so afterwards exactly that request is pending
-			// (it is not lost, and a refused request that was pending before is not put back over it)
-			r.build(a, p, in)
-			inj := z80.NMIInterrupt()
-			fired := false
-			w.imem.Hook = func(bool, uint16) {
-				if !fired {
-					fired = true
-					w.cpu.Interrupt = inj
+			// the same Step again, and a device raises an NMI from inside the k-th callback of the Step (every
+			// memory access, port access and RETN/RETI notification in turn; a daisy-chained device raises its
+			// next request exactly when it sees the RETI): the Step has already decided to execute the
+			// instruction, so afterwards exactly that request is pending (it is not lost, and a refused
+			// request that was pending before is not put back over it)
+			total := 1
+			for k := 0; k < total && len(d) == 0; k++ {
+				r.build(a, p, in)
+				inj := z80.NMIInterrupt()
+				n := 0
+				fired := false
+				tick := func() {
+					if n == k {
+						fired = true
+						w.cpu.Interrupt = inj
+					}
+					n++
 				}
-			}
-			func() {
-				defer func() { pan = recover() }()
-				w.cpu.Step()
-			}()
-			w.imem.Hook = nil
-			if pan != nil {
-				d = append(d, fmt.Sprintf("Step panicked when a device raised an NMI from its memory callback: %v", pan))
-			} else if fired && w.cpu.Interrupt != inj {
-				d = append(d, fmt.Sprintf("a device raised an NMI from inside a memory callback of this Step; afterwards CPU.Interrupt is %v instead of that request (lost or overwritten)", describeReq(w.cpu.Interrupt)))
+				w.imem.Hook = func(bool, uint16) { tick() }
+				w.iio.Hook = func(bool, uint8) { tick() }
+				hk := &hookHandler{tick}
+				w.cpu.RETNHandler, w.cpu.RETIHandler = hk, hk
+				func() {
+					defer func() { pan = recover() }()
+					w.cpu.Step()
+				}()
+				w.imem.Hook, w.iio.Hook = nil, nil
+				if k == 0 {
+					total = n
+				}
+				if pan != nil {
+					d = append(d, fmt.Sprintf("Step panicked when a device raised an NMI from callback %d of the Step: %v", k, pan))
+				} else if fired && w.cpu.Interrupt != inj {
+					d = append(d, fmt.Sprintf("a device raised an NMI from inside callback %d of %d of this Step (memory/port accesses and RETN/RETI notifications counted in order); afterwards CPU.Interrupt is %v instead of that request (lost or overwritten)", k, total, describeReq(w.cpu.Interrupt)))
+				}
 			}
 		}
 	}
@@ -477,6 +491,12 @@ func (r *c06Runner) replayEdge(si int, p *c06Point, in *c06Instr) ([]string, str
 	}
 	return d, sig, false
 }
+
+// hookHandler is a RETN/RETI handler that only reports the notification to the harness.
+type hookHandler struct{ f func() }
+
+func (h *hookHandler) RETNHandle() { h.f() }
+func (h *hookHandler) RETIHandle() { h.f() }
 
 func describeReq(r *z80.Interrupt) string {
 	if r == nil {
@@ -587,7 +607,7 @@ func checkC06(c *Ctx) {
 	r := &c06Runner{w: newWorker(obsBackground(c)), g: g}
 	lat := c06Lattice(c.Quick())
 	instrs := c06Instrs()
-	c.Rule = fmt.Sprintf("TLC generates the complete state graph of models/Z80Int.tla (MaxNest=3; %d distinct states, %d edges; model invariants AcceptClears, NotifyExact, NoSkip, NMIAlways, MaskRespected checked by TLC). (1) for every model state x %d concrete instruction variants of the 10 model instructions x %d data-lattice points (PC incl. wrap, SP incl. wrap and stack overlapping PC, I x vector, mode-0 data RST 00..38 and CALL nn, HALT flag): build the concrete representative (depth = real return frames, pend = a real request object matching IM), perform one real Step, abstract the result and require it to be a TLC successor of the state under that driver action; then check the concrete obligations of the edge taken (target PC, pushed address, IFF1/IFF2, request consumed or identical object still pending, no program fetch on acceptance, executed instruction identical to refz80's Step without request, handler counters). (2) BFS over the implementation's own transitions from the initial concrete state, every transition validated against the graph. (3) every implemented encoding: RETN/RETI handlers notified exactly by ED 45/ED 4D (also with nil handlers). (4) mode 0: every implemented encoding except CALL/RST delivered as request data x quick lattice x 4 F, compared with refz80 executing that instruction (registers, flags, writes, ports, notifications; IFF1=IFF2=0; no program-memory read inside [PC,PC+len); PC/R/halted not compared). Request shapes: constructor-built, mode 1 with a data byte, mode 2 with an odd vector (dispatch target not judged). After every executed (not accepting) Step the same Step is repeated with a device raising an NMI from the first memory callback: that request must be what is pending afterwards. The implementation BFS reuses one request object per kind with re-pointed Data, installs a fresh Memory object before every Step (accesses through an older object are errors) and checks the dispatch target of every acceptance. Non-trivial = an edge with a pending request or an interrupt-control instruction (counted).", len(g.states), g.edges, len(instrs), len(lat))
+	c.Rule = fmt.Sprintf("TLC generates the complete state graph of models/Z80Int.tla (MaxNest=3; %d distinct states, %d edges; model invariants AcceptClears, NotifyExact, NoSkip, NMIAlways, MaskRespected checked by TLC). (1) for every model state x %d concrete instruction variants of the 10 model instructions x %d data-lattice points (PC incl. wrap, SP incl. wrap and stack overlapping PC, I x vector, mode-0 data RST 00..38 and CALL nn, HALT flag): build the concrete representative (depth = real return frames, pend = a real request object matching IM), perform one real Step, abstract the result and require it to be a TLC successor of the state under that driver action; then check the concrete obligations of the edge taken (target PC, pushed address, IFF1/IFF2, request consumed or identical object still pending, no program fetch on acceptance, executed instruction identical to refz80's Step without request, handler counters). (2) BFS over the implementation's own transitions from the initial concrete state, every transition validated against the graph. (3) every implemented encoding: RETN/RETI handlers notified exactly by ED 45/ED 4D (also with nil handlers). (4) mode 0: every implemented encoding except CALL/RST delivered as request data x quick lattice x 4 F, compared with refz80 executing that instruction (registers, flags, writes, ports, notifications; IFF1=IFF2=0; no program-memory read inside [PC,PC+len); PC/R/halted not compared). Request shapes: constructor-built, mode 1 with a data byte, mode 2 with an odd vector (dispatch target not judged). After every executed (not accepting) Step the same Step is repeated with a device raising an NMI from the k-th callback for every k (memory and port accesses, RETN/RETI notifications): that request must be what is pending afterwards. The implementation BFS reuses one request object per kind with re-pointed Data, installs a fresh Memory object before every Step (accesses through an older object are errors) and checks the dispatch target of every acceptance. Non-trivial = an edge with a pending request or an interrupt-control instruction (counted).", len(g.states), g.edges, len(instrs), len(lat))
 	c.Bound = "nesting depth 3; data lattice " + c.Tier
 	var n, nt, skipped int64
 	failedKeys := map[string]bool{}
